@@ -271,6 +271,17 @@ Definition sched_uncontrolled : scheduler :=
 Definition sched_script (script : list (nat * list (Z * list Q))) : scheduler :=
   fun t _ => match find (fun p => Nat.eqb (fst p) t) script with Some p => snd p | None => [] end.
 
+(* a sorting-based scheduler: the active sessions are sorted by an integer key (stable insertion
+   sort, like Python's sorted) and handed to an allocation procedure *)
+Fixpoint insert_by (key : sinfo -> Z) (a : sinfo) (l : list sinfo) : list sinfo :=
+  match l with
+  | [] => [a]
+  | x :: r => if Z.leb (key a) (key x) then a :: x :: r else x :: insert_by key a r
+  end.
+Definition sort_by (key : sinfo -> Z) (l : list sinfo) : list sinfo := fold_right (insert_by key) [] l.
+Definition sched_sorted (key : sinfo -> Z) (alloc : nat -> list sinfo -> list (Z * list Q)) : scheduler :=
+  fun t act => alloc t (sort_by key act).
+
 Inductive sched_kind := Uncontrolled | Script (script : list (nat * list (Z * list Q))).
 Definition sched_of (k : sched_kind) : scheduler :=
   match k with Uncontrolled => sched_uncontrolled | Script s => sched_script s end.
